@@ -1,4 +1,4 @@
-import QtVerif.Proofs.SlaveNodup
+import QtVerif.Proofs.SlaveOffline
 /-!
 C13 — Changes made while a slave is offline are pushed once it is back online.
 
@@ -236,5 +236,161 @@ example : DevReports (editDev wMaster 1 6).1.devProv [.ev (.deviceUpdate [(1, 5)
   decide
 
 example : ∀ n ∈ (editDev wMaster 1 6).1.devProv, ((editDev wMaster 1 6).1.dev.get? n).isSome := by decide
+
+/-! ### 4. Offline histories WITH further user edits interleaved (`Off` = events, ticks, value / attribute / device
+edits on any port, any number of times): the reconnect pushes the LAST user value
+
+`runOff` replays such a history on the master; `lastValue id h` / `namesAfter id [] h` / `attrAfter id n none h` are
+computed from the history alone (they do not look at the master). -/
+
+/-- During the outage nothing is sent for any edit, and the master stays offline. -/
+theorem offline_history_sends_nothing (fix : Fix) (m : Master) (hoff : m.online = false) (h : List Off) :
+    reqsOff fix m h = [] ∧ (runOff fix m h).online = false :=
+  ⟨reqsOff_nil fix h m hoff, runOff_online fix h m hoff⟩
+
+/-- The `Off` histories extend the `Inc` histories of §1–2. -/
+theorem off_extends_inc (fix : Fix) (m : Master) (incs : List Inc) :
+    runOff fix m (incs.map Inc.toOff) = runInc fix m incs :=
+  runOff_of_inc fix incs m
+
+/-- Registry ids stay duplicate-free along every such history. -/
+theorem registry_ids_stay_distinct_off (fix : Fix) (m : Master) (hoff : m.online = false) (h : List Off)
+    (hnd : (m.ports.map (·.id)).Nodup) : ((runOff fix m h).ports.map (·.id)).Nodup :=
+  nodup_runOff fix h m hoff hnd
+
+/-- **Several value writes during one outage: the LAST one is pushed, exactly once.** The history is split at
+any value write to the port made when its remote queue had been read out (`hq`; e.g. the first write of the outage,
+see `queue_read_out_by_tick`); before it (`h1`) and after it (`h2`) anything may happen — events, ticks, further
+writes to the same port, edits of attributes, of other ports, of the device. The reconnect then sends exactly one
+value request for the port and it carries the last value the user wrote in the whole history. -/
+theorem offline_value_writes_last_pushed (rf : List Nat) (m : Master) (hoff : m.online = false)
+    (hnd : (m.ports.map (·.id)).Nodup) (id : Nat) (h1 h2 : List Off) (v0 : Int) (ok0 : Bool) (p1 : MPort)
+    (hp1 : findPort (runOff Fix.repaired m h1).ports id = some p1) (hq : p1.rq = [])
+    (hnr : Off.ev (.portRemove id) ∉ h2) (d : Attrs) (ps : List PortMsg) :
+    ∃ v, lastValue id (h1 ++ [.editValue id v0 ok0] ++ h2) = some v ∧
+      (handleOnline Fix.repaired rf (runOff Fix.repaired m (h1 ++ [.editValue id v0 ok0] ++ h2)) (some d)
+        (some ps)).1.filter (Req.isValuePushFor id) = [Req.patchValue id (some v)] := by
+  refine ⟨valAfter id v0 h2, lastValue_split id h1 h2 v0 ok0, ?_⟩
+  have hoff1 := runOff_online Fix.repaired h1 m hoff
+  rw [runOff_append, runOff_append]
+  -- the write itself
+  obtain ⟨p2, hp2, hr2⟩ := stepOff_port true (runOff Fix.repaired m h1) (.editValue id v0 ok0) id p1 hoff1 hp1
+    (by intro h; cases h)
+  simp only [PortRel, if_true] at hr2
+  have hv2 : p2.pendValue = some v0 := by rw [hr2]; rfl
+  have hq2 : p2.rq = [] := by rw [hr2]; exact hq
+  have hoff2 := stepOff_online Fix.repaired _ (.editValue id v0 ok0) hoff1
+  -- everything after it
+  obtain ⟨p3, hp3, hv3, _⟩ := runOff_value true id h2 _ p2 v0 hoff2 hp2 hnr hv2 hq2
+  have hnd3 : ((runOff Fix.repaired (runOff Fix.repaired (runOff Fix.repaired m h1) [.editValue id v0 ok0]) h2).ports.map
+      (·.id)).Nodup :=
+    nodup_runOff _ h2 _ hoff2 (nodup_runOff _ [_] _ hoff1 (nodup_runOff _ h1 m hoff hnd))
+  have h := (pushed_exactly_once_before_refresh rf _ d ps hnd3).choose_spec.choose_spec.2.2.2.2.1 p3
+    (findPort_mem_p hp3)
+  rw [findPort_some_id hp3, hv3] at h
+  exact h.1
+
+/-- The hypothesis `hq` of `offline_value_writes_last_pushed` holds whenever the hub's polling loop has ticked on the
+(enabled) port since the last remote value arrived: `h1 = h0 ++ [.tick]`. -/
+theorem queue_read_out_by_tick (fix : Fix) (m : Master) (h0 : List Off) (id : Nat) (p : MPort)
+    (hp : findPort (runOff fix m h0).ports id = some p) (he : p.enabled = true) :
+    ∃ p1, findPort (runOff fix m (h0 ++ [.tick])).ports id = some p1 ∧ p1.rq = [] := by
+  rw [runOff_append]
+  exact quiet_after_tick _ id p hp he
+
+/-- Special case `h1 = []`: the former end-to-end theorem with any further edits interleaved after the write. -/
+theorem offline_value_pushed_end_to_end_with_edits (rf : List Nat) (m : Master) (hoff : m.online = false)
+    (hnd : (m.ports.map (·.id)).Nodup) (id : Nat) (v0 : Int) (ok0 : Bool) (p : MPort)
+    (hp : findPort m.ports id = some p) (hq : p.rq = []) (h2 : List Off)
+    (hnr : Off.ev (.portRemove id) ∉ h2) (d : Attrs) (ps : List PortMsg) :
+    ∃ v, lastValue id (.editValue id v0 ok0 :: h2) = some v ∧
+      (handleOnline Fix.repaired rf (runOff Fix.repaired m (.editValue id v0 ok0 :: h2)) (some d)
+        (some ps)).1.filter (Req.isValuePushFor id) = [Req.patchValue id (some v)] :=
+  offline_value_writes_last_pushed rf m hoff hnd id [] h2 v0 ok0 p hp hq hnr d ps
+
+/-- **`hq` cannot be dropped — it does NOT follow from the offline write.** `write_value` (offline branch) stores the
+user's value in `_cached_value` and leaves `_remote_value_queue` alone; if remote values are still queued (they
+arrived in one listen batch and the hub has not read them yet), the next `read_value` overwrites `_cached_value`
+with a queued SLAVE value and `get_provisioning_value()` then returns that: the reconnect pushes the slave's old
+value 7 back instead of the user's 42, exactly once. (Model-level witness, repaired code.) -/
+theorem offline_write_over_unread_queue_is_lost :
+    let m : Master := { wMaster with ports := [{ wPort with rq := [some 7] }] }
+    let m' := runOff Fix.repaired m [.editValue 1 42 true, .tick]
+    lastValue 1 [.editValue 1 42 true, .tick] = some 42 ∧
+    (handleOnline Fix.repaired [] m' (some []) (some [⟨1, [(0, 1), (3, 4)], some (some 7)⟩])).1.filter
+      (Req.isValuePushFor 1) = [Req.patchValue 1 (some 7)] := by
+  decide
+
+/-- **Several attribute edits during one outage: exactly the last user value per edited name is pushed, in one
+request.** General form: the port may already hold pending names (each with a value, `hs`); `pendLookup p` is what
+it holds before the history. -/
+theorem offline_attr_edits_last_pushed_general (rf : List Nat) (m : Master) (hoff : m.online = false)
+    (hnd : (m.ports.map (·.id)).Nodup) (id : Nat) (p : MPort) (hp : findPort m.ports id = some p)
+    (hs : ∀ n ∈ p.prov, (p.attrs.get? n).isSome) (h : List Off) (hnr : Off.ev (.portRemove id) ∉ h)
+    (d : Attrs) (ps : List PortMsg) :
+    (handleOnline Fix.repaired rf (runOff Fix.repaired m h) (some d) (some ps)).1.filter (Req.isAttrPushFor id) =
+      (if ((namesAfter id p.prov h).filterMap
+            (fun n => (attrAfter id n (pendLookup p n) h).map (fun v => (n, v)))).isEmpty then []
+       else [Req.patchPort id ((namesAfter id p.prov h).filterMap
+            (fun n => (attrAfter id n (pendLookup p n) h).map (fun v => (n, v))))]) := by
+  obtain ⟨p', hp', hi⟩ := runOff_attr true id h m p p.prov (pendLookup p) hoff hp hnr (invA_start p hs)
+  have hnd' := nodup_runOff Fix.repaired h m hoff hnd
+  have hh := ((pushed_exactly_once_before_refresh rf _ d ps hnd').choose_spec.choose_spec.2.2.2.2.1 p'
+    (findPort_mem_p hp')).2
+  rw [findPort_some_id hp', pendAttrs_of_invA hi] at hh
+  exact hh
+
+/-- Nothing pending for the port before the outage: the body of the single `PATCH /ports/<id>` is computed from the
+history alone — the edited names in first-edit order, each with the LAST value the user gave it. -/
+theorem offline_attr_edits_last_pushed (rf : List Nat) (m : Master) (hoff : m.online = false)
+    (hnd : (m.ports.map (·.id)).Nodup) (id : Nat) (p : MPort) (hp : findPort m.ports id = some p)
+    (hclean : p.prov = []) (h : List Off) (hnr : Off.ev (.portRemove id) ∉ h) (d : Attrs) (ps : List PortMsg) :
+    (handleOnline Fix.repaired rf (runOff Fix.repaired m h) (some d) (some ps)).1.filter (Req.isAttrPushFor id) =
+      (if ((namesAfter id [] h).filterMap (fun n => (attrAfter id n none h).map (fun v => (n, v)))).isEmpty then []
+       else [Req.patchPort id ((namesAfter id [] h).filterMap
+            (fun n => (attrAfter id n none h).map (fun v => (n, v))))]) := by
+  have hs : ∀ n ∈ p.prov, (p.attrs.get? n).isSome := by rw [hclean]; intro n hn; cases hn
+  have := offline_attr_edits_last_pushed_general rf m hoff hnd id p hp hs h hnr d ps
+  have hl : pendLookup p = fun _ => none := by
+    funext n; unfold pendLookup; rw [hclean]; simp
+  rw [hclean, hl] at this
+  exact this
+
+-- one outage: attribute 3 edited twice (9 then 11), attribute 4 once, the value written twice (42 then 43), edits
+-- of another port and of the device, the slave's own port-update / value-change and ticks in between
+def wHist : List Off :=
+  [.tick, .editValue 1 42 true, .editAttr 1 3 9, .ev (.portUpdate ⟨1, [(0, 1), (3, 4)], some (some 7)⟩),
+   .editAttr 1 4 2, .editDev 8 1, .ev (.valueChange 1 (some 7)), .tick, .editAttr 2 3 5, .editValue 1 43 true,
+   .editAttr 1 3 11, .tick]
+
+example : lastValue 1 wHist = some 43 ∧ namesAfter 1 [] wHist = [3, 4] ∧ attrAfter 1 3 none wHist = some 11 ∧
+    attrAfter 1 4 none wHist = some 2 := by decide
+example : wMaster.online = false ∧ (wMaster.ports.map (·.id)).Nodup ∧ findPort wMaster.ports 1 = some wPort ∧
+    wPort.prov = [] ∧ Off.ev (.portRemove 1) ∉ wHist ∧
+    (∃ p1, findPort (runOff Fix.repaired wMaster [.tick]).ports 1 = some p1 ∧ p1.rq = []) := by decide
+example : (handleOnline Fix.repaired [] (runOff Fix.repaired wMaster wHist) (some []) (some [])).1 =
+    [.patchDevice [(8, 1)], .patchPort 1 [(3, 11), (4, 2)], .patchValue 1 (some 43), .getDevice, .getPorts] := by
+  decide
+
+/-! ### Open: device attributes edited several times during one outage -/
+
+def devNamesAfter (names : List Nat) (l : List Off) : List Nat :=
+  l.foldl (fun acc x => match x with | .editDev n _ => addName acc n | _ => acc) names
+def devAttrAfter (n : Nat) (a : Option Int) (l : List Off) : Option Int :=
+  l.foldl (fun acc x => match x with | .editDev k v => if k = n then some v else acc | _ => acc) a
+
+/-- NOT PROVED (statement only). The device-attribute analogue of `offline_attr_edits_last_pushed` over `Off`
+histories: one `PATCH /device` carrying, for every edited name, the last user value. Covered so far: one device edit
+is pending with the user's value (`offline_device_edit_pending`), pending device attributes survive every `Inc`
+history (`offline_device_edits_kept`), whatever is pending is sent in exactly one `PATCH /device` before the refresh
+(`pushed_exactly_once_before_refresh`), and the concrete history `wHist` above (`decide`). `hrep`: every device update
+reports the whole attribute set (cf. `DevReports`). -/
+def offlineDeviceEditsLastPushedFull : Prop :=
+  ∀ (rf : List Nat) (m : Master) (h : List Off) (d : Attrs) (ps : List PortMsg),
+    m.online = false → m.devProv = [] →
+    (∀ a, Off.ev (.deviceUpdate a) ∈ h → ∀ n ∈ devNamesAfter [] h, a.has n = true) →
+    (handleOnline Fix.repaired rf (runOff Fix.repaired m h) (some d) (some ps)).1.filter Req.isDevPush =
+      (if ((devNamesAfter [] h).filterMap (fun n => (devAttrAfter n none h).map (fun v => (n, v)))).isEmpty then []
+       else [Req.patchDevice ((devNamesAfter [] h).filterMap (fun n => (devAttrAfter n none h).map (fun v => (n, v))))])
 
 end QtVerif.Slave.C13
